@@ -82,6 +82,7 @@ inductive IncKind | regular | recursive | zones
 inductive Expr
   | lit (v : Value)                                   -- LiteralExpression          :92
   | var (name : String)                               -- VariableExpression         :111
+  | varIn (imports : List Expr) (name : String)       -- VariableExpression after `using e1; using e2; …` (m_Imports)
   | ref (target : Expr)                               -- RefExpression              :152  (&x, &o.f)
   | deref (e : Expr)                                  -- DerefExpression            :166
   | unop (op : UnOp) (e : Expr)                       -- Negate/LogicalNegate       :193,:201
@@ -132,7 +133,7 @@ def BinOp.kind : BinOp → String
 
 /-- The C++ class whose `DoEvaluate` a node runs — the key into the generated guard table. -/
 def Expr.kind : Expr → String
-  | .lit _ => "LiteralExpression" | .var _ => "VariableExpression" | .ref _ => "RefExpression"
+  | .lit _ => "LiteralExpression" | .var _ => "VariableExpression" | .varIn _ _ => "VariableExpression" | .ref _ => "RefExpression"
   | .deref _ => "DerefExpression" | .unop op _ => op.kind | .binop op _ _ => op.kind
   | .land _ _ => "LogicalAndExpression" | .lor _ _ => "LogicalOrExpression"
   | .call _ _ => "FunctionCallExpression" | .mcall _ _ _ => "FunctionCallExpression"
@@ -232,6 +233,7 @@ structure Cfg where
   fieldCheck : Bool                          -- generated: object.cpp:119-124 present
   refGetSandboxed : Bool := true             -- generated: the literal `sandboxed` argument in Reference::Get (reference.cpp:22)
   initDictOff : Bool := true                 -- generated: `if (frame.Sandboxed) init_dict = false;` (expression.cpp:758-759)
+  importSandboxed : Bool := true             -- generated: VMOps::FindVarImport reads through GetField(…, frame.Sandboxed, …) (vmops.hpp:43-53)
   native : String → Option Native
   hidden : String → String → Bool            -- type, field ↦ FANoUserView
   tmpl : String → Option Expr := fun _ => none      -- templates known to ConfigItem (import)
@@ -387,6 +389,29 @@ def readVar (name : String) : M Value := do
       | some v => pure v
       | none => M.fail (.script ("Tried to access undefined script variable '" ++ name ++ "'"))   -- scriptglobal.cpp Get
 
+/-- Object::HasOwnField as VMOps::FindVarImportRef uses it (vmops.hpp:29-41). -/
+def hasOwnField (env : Env) (v : Value) (name : String) : Bool :=
+  match v with
+  | .obj n => match lookup n env.prot.objects with
+    | some o => (lookup name o.attrs).isSome
+    | none => false
+  | .scope .globals => (lookup name env.prot.consts).isSome || (lookup name env.prot.globals).isSome
+  | .scope _ => (lookup name env.locals).isSome
+  | .dict l => (lookup name l).isSome
+  | _ => false
+
+/-- VMOps::FindVarImport (vmops.hpp:43-53) over the imports of a variable, then ScriptGlobal::Get: the first
+    import that has the name as an own field is read through VMOps::GetField with the sandbox flag the source
+    passes there (generated into `cfg.importSandboxed`). -/
+def findImport (cfg : Cfg) (sb : Bool) (ev : Expr → M Out) : List Expr → String → M Out
+  | [], name => do let v ← readVar name; pure (v, .ok)
+  | imp :: rest, name => chk (ev imp) fun iv => do
+      let env ← M.get
+      if hasOwnField env iv name then do
+        let v ← getField cfg (sb && cfg.importSandboxed) iv name
+        pure (v, .ok)
+      else findImport cfg sb ev rest name
+
 /-- Write a global through the namespace (Namespace::Set, lib/base/namespace.cpp): constants refuse. -/
 def writeGlobal (name : String) (v : Value) : M Unit := do
   let env ← M.get
@@ -540,6 +565,11 @@ def evalNode (cfg : Cfg) (sb : Bool) (fuel : Nat) (ev : Expr → M Out) (e : Exp
   match e with
   | .lit v => pure (v, .ok)
   | .var name => do let v ← readVar name; pure (v, .ok)
+  | .varIn imports name => do                                         -- :111-123 locals, then the imports, then globals
+      let env ← M.get
+      match lookup name env.locals with
+      | some v => pure (v, .ok)
+      | none => findImport cfg sb ev imports name
   | .ref target =>                                                    -- :152-164 GetReference(frame, false, …)
       match target with
       | .var name => do                                               -- VariableExpression::GetReference :125-150
